@@ -108,6 +108,13 @@ class Worker(object):
 
     # synchronous interpreter (threads); point() is the scheduling point
     def run_sync(self, body, point):
+        if getattr(self, "seed_rng", False) and not getattr(self, "_seeded", False):
+            # an application thread that makes its own random numbers reproducible
+            import random
+
+            self._seeded = True
+            point()
+            random.seed(4242)
         for st in body:
             point()
             self.check("before-op")
@@ -230,6 +237,8 @@ def thread_harnesses(tier):
     out.append([["raw", 5], ["pc", 0]])
     if tier == "thorough":
         out.append([["raw", 5], ["pc", 6]])
+    out.append([["raw", 4, "seed"], ["raw", 4, "seed"]])
+    out.append([["raw", 1, "seed"], ["raw", 0, "seed"]])
     three = [[["raw", 0], ["pc", 0], ["raw", 4]]]
     if tier == "thorough":
         out.append([["pc", 5], ["pc", 6]])
@@ -245,6 +254,7 @@ def aio_harnesses(tier):
             out.append([b1, b2])
     out += [[1, 5]]
     out += [[7, 7], [7, 1], [7, 0], [7, 2], [9, 9], [9, 7]]
+    out += [[0, 1, "explicit"], [1, 1, "explicit"], [0, 0, "explicit"]]
     out += [[0, 1, 0]]
     if tier == "thorough":
         out += [[8, 7], [8, 2], [8, 8], [5, 6], [6, 6], [5, 5], [0, 1, 2], [1, 1, 0], [1, 2, 4]]
@@ -320,10 +330,12 @@ def run_threads(harness):
                 me.stack.append(A)
                 me.check("after-enter-A")
                 threads = []
-                for i, (kind, bi) in enumerate(harness):
+                for i, spec in enumerate(harness):
+                    kind, bi = spec[0], spec[1]
                     name = "W%d" % i
                     if kind == "raw":
                         w = Worker(name, None, problems)
+                        w.seed_rng = len(spec) > 2
                         fn = (lambda w=w, bi=bi: w.run_sync(BODIES[bi], lambda: s.point(("op", w.name))))
                     else:
                         w = Worker(name, "REMOTE", problems)
@@ -427,8 +439,40 @@ def run_threads(harness):
 
 
 def run_aio(harness):
+    explicit = bool(harness) and harness[-1] == "explicit"
+    if explicit:
+        harness = harness[:-1]
+
     def main_factory(problems, seen_box):
+        async def main_explicit(run):
+            """The parent starts A, spawns the children inside `with A.context():`, leaves that block,
+            awaits them, then finishes A explicitly (still structured: joined before A ends)."""
+            world.fresh()
+            seen = world.capture()
+            seen_box.append(seen)
+            me = Worker("P", None, problems)
+            workers = []
+            A = start_action(action_type="main:A", who="A")
+            with A.context():
+                me.stack.append(A)
+                tasks = []
+                for i, bi in enumerate(harness):
+                    w = Worker("C%d" % i, A, problems)
+                    workers.append(w)
+                    tasks.append(asyncio.create_task(w.run_async(BODIES[bi], run.pause)))
+                log_message("w:msg", who=me.label())
+                me.stack.pop()
+            me.check("after-context-block")
+            await run.pause("P")
+            await asyncio.gather(*tasks)
+            me.check("after-gather")
+            A.log("w:msg", who=me.label())
+            A.finish()
+            return workers
+
         async def main(run):
+            if explicit:
+                return await main_explicit(run)
             world.fresh()
             seen = world.capture()
             seen_box.append(seen)
